@@ -8,6 +8,9 @@ def impl_cells(rep):
     """impl reply -> ({key: float}, {chrom: file-info}, problems)"""
     cells, files, problems = {}, {}, []
     for f in rep["files"]:
+        if "unreadable" in f or "cells" not in f:
+            problems.append("result file %s cannot be read back: %s" % (f.get("file"), str(f.get("unreadable"))[:200]))
+            continue
         files[f["chrom"]] = f
         for ch, lv, name, side, w, g, v in f["cells"]:
             if name == "__SHAPE__":
